@@ -39,6 +39,14 @@ def install_py0_hook():
     sys.meta_path.insert(0, Finder())
 
 
+def _jsonable(o):
+    if hasattr(o, 'item'):
+        return o.item()
+    if hasattr(o, 'tolist'):
+        return o.tolist()
+    return str(o)
+
+
 def main():
     jin, jout = sys.argv[1:3]
     job = json.load(open(jin))
@@ -65,7 +73,7 @@ def main():
                 else:
                     res = {'exc': type(e).__name__, 'msg': str(e)[:300],
                            'tb': traceback.format_exc()[-1500:]}
-            f.write(json.dumps(res) + '\n')
+            f.write(json.dumps(res, default=_jsonable) + '\n')
             f.flush()
             os.fsync(f.fileno())
 
